@@ -58,26 +58,65 @@ let bitset_case nn ops =
 let rec take k l = if k <= 0 then [] else match l with [] -> [] | x :: r -> x :: take (k - 1) r
 let rec pad k l = if List.length l >= k then l else pad k (l @ [N0])
 let cyc len v = List.init len (fun i -> List.nth v (i mod List.length v))
-let showo = function Some x -> print_string ("v " ^ string_of_n x ^ "\n") | None -> print_string "UB\n"
-let some = function Some x -> string_of_n x | None -> "UB"
+(* element kinds of comp/bits/harness.cpp: an element is denoted by a code; [show] prints what the harness
+   prints for it, [elem_eq] is the element type's own operator== on codes (NOT reflexive for NaN codes 2 and 9,
+   NOT injective for -0.0/+0.0, pointers mod 64, enum mod 256, Pad ignoring the low bit of b) *)
+let f64_tab = [| 0x0000000000000000L; 0x8000000000000000L; 0x7ff8000000000000L; 0x7ff0000000000000L; 0xfff0000000000000L;
+                 0x3ff0000000000000L; 0xbff0000000000000L; 0x4004000000000000L; 0x0000000000000001L; 0xfff8000000000000L |]
+let f32_tab = [| 0x00000000l; 0x80000000l; 0x7fc00000l; 0x7f800000l; 0xff800000l; 0x3f800000l; 0xbf800000l;
+                 0x40200000l; 0x00000001l; 0xffc00000l |]
+let code (x : n) : int = Int64.to_int (i64_of_n x)
+let pad_a c = c land 255
+let pad_b c = (c lsr 8) land 0xffffffff
+let show kind (x : n) : string =
+  let c = code x in
+  match kind with
+  | "f64" -> Printf.sprintf "%016Lx" (if c < 10 then f64_tab.(c) else Int64.bits_of_float (float_of_int c))
+  | "f32" -> Printf.sprintf "%08lx" (if c < 10 then f32_tab.(c) else Int32.bits_of_float (float_of_int c))
+  | "ptr" -> string_of_int (c mod 64)
+  | "enum" -> string_of_int (c land 255)
+  | "pad" -> string_of_int (pad_a c) ^ ":" ^ string_of_int (pad_b c)
+  | _ -> string_of_n x
+let elem_eq kind (x : n) (y : n) : bool =
+  let c = code x and d = code y in
+  match kind with
+  | "f64" | "f32" ->
+      let nan k = k = 2 || k = 9 in
+      if nan c || nan d then false else if c <= 1 && d <= 1 then true else c = d
+  | "ptr" -> c mod 64 = d mod 64
+  | "enum" -> c land 255 = d land 255
+  | "pad" -> pad_a c = pad_a d && (pad_b c) lor 1 = (pad_b d) lor 1
+  | _ -> x = y
 
 let array_case hdr ops =
-  let len = int_of_string (List.hd hdr) in
-  let a = ref (take len (pad len (nums (List.tl hdr)))) in
+  let kind = List.hd hdr in
+  let len = int_of_string (List.nth hdr 1) in
+  let a = ref (take len (pad len (nums (List.tl (List.tl hdr))))) in
+  let sh = show kind in
+  let showo = function Some x -> print_string ("v " ^ sh x ^ "\n") | None -> print_string "UB\n" in
+  let some = function Some x -> sh x | None -> "UB" in
+  let plist l = print_string ("l" ^ String.concat "" (List.map (fun x -> " " ^ sh x) l) ^ "\n") in
+  let b2 x = if x then "1" else "0" in
+  let eqline b = print_string ("b " ^ b2 (arr_eqb (elem_eq kind) !a b) ^ " " ^ b2 (arr_neb (elem_eq kind) !a b) ^ "\n") in
+  let idx i = Int64.to_int (Int64.unsigned_rem (i64_of_n (n_of_string i)) (Int64.of_int len)) in
   List.iter (fun l -> match words l with
     | ["front"] -> showo (arr_front !a)
     | ["back"] -> showo (arr_back !a)
-    | ["idx"; i] -> showo (arr_index !a (nat_of_int (Int64.to_int (Int64.unsigned_rem (i64_of_n (n_of_string i)) (Int64.of_int len)))))
-    | ["put"; i; v] -> let k = Int64.to_int (Int64.unsigned_rem (i64_of_n (n_of_string i)) (Int64.of_int len)) in
+    | ["idx"; i] -> showo (arr_index !a (nat_of_int (idx i)))
+    | ["put"; i; v] -> let k = idx i in
         a := List.mapi (fun j x -> if j = k then n_of_string v else x) !a; print_string "u\n"
-    | ["iter"] -> print_list "l" (arr_iter !a)
-    | "eq" :: v -> pb (!a = cyc len (nums v))
+    | ["iter"] -> plist (arr_iter !a)
+    | "eq" :: v -> eqline (cyc len (nums v))
+    | ["eqself"] -> eqline !a; eqline !a
     | ["size"] -> print_string ("n " ^ string_of_int len ^ "\n")
     | ["get"] -> print_string ("v " ^ some (arr_index !a (nat_of_int 0)) ^ " " ^ some (arr_index !a (nat_of_int (len - 1))) ^ " " ^ some (arr_index !a (nat_of_int (len / 2))) ^ "\n")
-    | "swap" :: v -> let b = cyc len (nums v) in print_list "l" !a; a := b
-    | "concat" :: m :: v -> let m = int_of_string m in let m = if m = 1 || m = 2 || m = 3 then m else 5 in
-        let b = take m (pad 5 (nums v)) in
-        print_list "l" (arr_concat [!a; b]); print_list "l" (arr_concat [b; !a; b])
+    | "swap" :: v -> let b = cyc len (nums v) in plist !a; a := b
+    | "concat" :: m :: v -> let m = int_of_string m in
+        let m = if kind = "u64" then (if m = 1 || m = 2 || m = 3 then m else 5) else (if m = 2 then 2 else 5) in
+        let v = pad 5 (nums v) in
+        let b = cyc m v in
+        let c = List.init 2 (fun i -> List.nth v ((3 + i) mod List.length v)) in
+        List.iter (fun ls -> plist (arr_concat ls)) [[!a]; [!a; b]; [b; !a; b]; [!a; b; c; !a]; [c; !a; b; c; b]]
     | _ -> print_string "?\n") ops
 
 let outs k (next : unit -> string) =
